@@ -420,6 +420,7 @@ func c06Run(c *fw.Ctx) {
 	runRecurringUniverse(c, deal)
 	runRandomUniverse(c)
 	runLargeListUniverse(c, deal)
+	runTextUniverse(c, deal)
 	c.JournalDone()
 }
 
@@ -463,6 +464,7 @@ func init() {
 			"(b) filter trees: every tree of <= 3 (thorough <= 4) nodes below the VCALENDAR filter over kinds {comp, prop, param, text-match, time-range} x flags {is-not-defined, negate-condition} with names from a 3-component / 3-property / 2-parameter alphabet, against 8 fixed calendars; " +
 			"(c) recurring: FREQ=DAILY|WEEKLY x COUNT 1-4 x INTERVAL 1-2 x duration {0, 1h, 25h} (DTEND and DURATION spellings) x all ranges over a grid of instance boundaries +-30min, instances computed by the harness's own expander; " +
 			"random: seeded larger objects and filters, plus caldav.Filter over lists of objects (subsequence, identity, nil query). " +
+			"(f) text-match, exhaustive: 18 property values (TEXT escapes \\\\ \\, \\; \\n \\N, unescaped commas = list values, semicolons, empty, leading/trailing comma, non-ASCII, mixed case) x every needle that is a substring (<= 5 runes) of the raw value, of the unescaped value or of a list item, whole items, ASCII case variants, the empty and an absent needle x negate on/off x properties {SUMMARY, CATEGORIES, RESOURCES (TEXT), X-A (no type), X-A;VALUE=TEXT}; parameter values likewise (single, and as 2nd value of a multi-valued parameter). " +
 			"(e) large lists: caldav.Filter over lists of 16..4096 objects (lengths around every power of two and 100/500/1000) x match patterns {all, none, alternating, first-only, last-only, ends-only, random} x text / time-range queries x cheap / front-heavy / back-heavy objects, each at GOMAXPROCS 1 and >1, repeated; also nil query. " +
 			"distinct_nontrivial counts distinct abstract renderings (node kinds, flags, existence relations, order pattern of range vs. event) of cases in which a verdict was demanded.",
 		Assumptions: []string{
